@@ -503,7 +503,7 @@ pub fn run(ctx: &Ctx) -> i32 {
             json!({"states": 1, "transitions": 1, "traces_validated_against_impl": 1, "samples": [desc], "exhaustive": false, "note": "run aborted by the watchdog"}),
             vec![],
         );
-        std::process::exit(code);
+        crate::common::exit_process(code);
     });
     let base = 1_000_000u64.wrapping_add(crate::common::splitmix64(ctx.seed) % 1_000_000);
     let mut spaces = Vec::new();
@@ -616,7 +616,7 @@ pub fn replay(_ctx: &Ctx, case: &Value) -> Result<(bool, String), String> {
             start_watchdog(Duration::from_secs(20), |d| {
                 println!("REPLAY observation: {} did not return within 20 s", d);
                 println!("VIOLATION property=C09 replay=(this file)");
-                std::process::exit(1);
+                crate::common::exit_process(1);
             });
             Ok(match case["sketcher"].as_str() {
                 Some("opt64") => replay_ops::<OptDensMinHash<f64, u64, FnvHasher>>(m, &ops, wit, chunks),
